@@ -159,3 +159,24 @@ def gen_large(rng):
         q = ps * float(rng.choice([0.5, 1.0, 2.5]))
         b, p = np.round(b / q) * q, np.round(p / q) * q
     return geom, kkw, kd, wkw, wfun, np.column_stack([b, p])
+
+
+def rescale(geom, kkw, kdesc, u):
+    """the configuration (geometry kwargs, kernel kwargs, kernel description) expressed in a unit u times smaller / larger"""
+    import copy
+    g = {"birth_range": (geom["birth_range"][0] * u, geom["birth_range"][1] * u),
+         "pers_range": (geom["pers_range"][0] * u, geom["pers_range"][1] * u), "pixel_size": geom["pixel_size"] * u}
+    kk, kd = copy.deepcopy(kkw), copy.deepcopy(kdesc)
+    if kd["kind"] == "gaussian":
+        kd["cov"] = (np.asarray(kd["cov"], float) * u * u).tolist()
+        if "kernel_params" in kk:
+            sg = kk["kernel_params"]["sigma"]
+            kk["kernel_params"]["sigma"] = (sg * u * u) if isinstance(sg, (int, float)) else (np.asarray(sg, float) * u * u if isinstance(sg, np.ndarray) else (np.asarray(sg, float) * u * u).tolist())
+        else:
+            kk = {"kernel": "gaussian", "kernel_params": {"sigma": kd["cov"]}}
+    elif kd["kind"] == "uniform":
+        kd["width"] *= u; kd["height"] *= u
+        kk["kernel_params"]["width"] *= u; kk["kernel_params"]["height"] *= u
+    else:
+        raise ValueError(kd["kind"])
+    return g, kk, kd
